@@ -215,7 +215,7 @@ def generate(rng: random.Random, tier: str) -> dict:
         elif r < (0.55 if style != "composite-heavy" else 0.75):
             kind = rng.choice(COMP_KINDS)
             ref = rng.choice(crs_slots) if (crs_slots and kind in NEEDS_CRS and rng.random() < 0.9) else None
-            steps.append(["comp", kind, rng.randrange(16), ref])
+            steps.append(["comp", kind, rng.randrange(17), ref])
             val_slots.append(n_pool)
             n_pool += 1
         elif r < 0.63 and (crs_slots or val_slots):
@@ -311,7 +311,7 @@ def build_comp(kind: str, v: int, crs: Any) -> Any:
             box[3] = math.nextafter(box[3], 100.0)
         return geom.BoundingBox(*box, crs=crs)
     if kind == "geom":
-        v = v % 12
+        v = v % 17
         if v == 0:
             return geom.point(1.0, 2.0, crs)
         if v == 1:
@@ -334,7 +334,19 @@ def build_comp(kind: str, v: int, crs: Any) -> Any:
             return geom.polygon([(0, 0), (0, 2), (2, 2), (2, 0), (0, 0)], crs, [(0.5, 0.5), (0.5, 1), (1, 1), (0.5, 0.5)])
         if v == 10:
             return geom.polygon([(0, 0), (0, 2), (2, 2), (2, 0), (0, 0)], crs, [(0.5, 0.5), (0.5, 1), (1, 1.25), (0.5, 0.5)])
-        return geom.line([(0, 0), (1, 1), (2, math.nextafter(0.5, 1.0))], crs)
+        if v == 11:
+            return geom.line([(0, 0), (1, 1), (2, math.nextafter(0.5, 1.0))], crs)
+        if v == 12:
+            return geom.multipolygon([[[(0, 0), (0, 1), (1, 1), (0, 0)]], [[(5, 5), (5, 6), (6, 6), (5, 5)]]], crs)
+        if v == 13:
+            return geom.multiline([[(0, 0), (1, 1)], [(2, 2), (3, 3.5)]], crs)
+        import shapely
+
+        if v == 14:  # what an intersection of touching shapes returns
+            return geom.Geometry(shapely.GeometryCollection([shapely.Point(1, 2), shapely.LineString([(0, 0), (1, 1)])]), crs)
+        if v == 15:
+            return geom.Geometry(shapely.GeometryCollection([shapely.Point(1, 2.5), shapely.LineString([(0, 0), (1, 1)])]), crs)
+        return geom.Geometry(shapely.Polygon(), crs)  # empty
     if kind == "geobox":
         # 0 base | 1 same as base | 2 transposed | 3 same pixel count | 4..9 one affine coefficient changed (a,b,c,d,e,f) | 10 ny+1 | 11 nx+1
         shp = {2: (12, 10), 3: (8, 15), 10: (11, 12), 11: (10, 13)}.get(v, (10, 12))
